@@ -229,6 +229,13 @@ type Exec struct {
 	// an x/net hpack.Decoder rejects the second of two leading dynamic table size updates when its
 	// table is not empty after the first (trusted base, see section file): remembered per
 	// direction so that this decoder quirk is not blamed on the relay
+	// F08b, second form: relay d wrote a dynamic table size update in front of a block that then
+	// stayed in an output queue; if the receiver lowers its table size (and sees the acknowledgement,
+	// which is forwarded at once) before the block leaves, the update in it is above what the
+	// receiver allows by then. updPending[d]: endpoint 1-d advertised a table size since relay d last
+	// encoded a block.
+	updPending [2]bool
+	stale      [2]bool
 	twoUpdatesIn [2]bool // endpoint d's latest block began with two size updates
 	skipRest     bool    // the rest of the case is not sent to the model (case abandoned)
 	quirkNow     bool    // ... in this step, because of the decoder quirk: the step's verdicts are void
@@ -522,7 +529,9 @@ func (x *Exec) Do(op string) core.Result {
 		trial := x.sTab[e].Clone()
 		fs, legal := trial.Apply(is, uint64(x.sLimit[e]))
 		if !legal || len(fs) == 0 {
-			return core.Result{Impl: "bad-op"} // not a block a conforming encoder emits here (e.g. a shrunk case)
+			// not a block a conforming encoder emits here (a shrunk case): not an input, and the model,
+			// which does not follow the sender's encoder, is not asked
+			return core.Result{Impl: "bad-op", SkipModel: true}
 		}
 		x.sTab[e] = trial
 		es := t[3] == "1"
@@ -597,6 +606,9 @@ func (x *Exec) Do(op string) core.Result {
 				tabVals = append(tabVals, s.Val)
 				core.Count("gen:settings-header-table-size")
 			}
+		}
+		if len(tabVals) > 0 {
+			x.updPending[1-e] = true // relay 1-e (the one sending to e) announces it with its next block
 		}
 		x.advFrames[e] = append(x.advFrames[e], tabVals)
 		x.ackDue[1-e] = append(x.ackDue[1-e], tabVals) // the relay forwards the frame in this step
@@ -717,8 +729,17 @@ func (x *Exec) Do(op string) core.Result {
 	if needEnc && err == nil {
 		// F08b class: a header block was just encoded on relay d for stream x.lastBlockSid while
 		// a block encoded earlier is still queued on another stream.
+		hadUpd := x.updPending[d]
+		x.updPending[d] = false
 		for _, st := range x.pair.Snapshot(h2.Direction(d)).Streams {
 			if st.ID == x.lastBlockSid {
+				// ... second form: the block just encoded carries a size update and stays queued
+				if n := len(st.Queue); hadUpd && n > 0 && (st.Queue[n-1].Kind == "headers" || st.Queue[n-1].Kind == "push_promise") {
+					if !x.stale[d] {
+						core.Count("hpack-stale-size-update-cases")
+					}
+					x.stale[d] = true
+				}
 				continue
 			}
 			for _, qf := range st.Queue {
@@ -1130,7 +1151,7 @@ func (x *Exec) recvBlock(dir, r int, b *pendingBlockRx, fail func(string, string
 		got = LitEncode(fs)
 		fieldsTok = Digest(got)
 	}
-	if x.hazard[dir] {
+	if x.hazard[dir] || x.stale[dir] {
 		fieldsTok = "~" // F08b class reached: what the receiver decodes is no longer predicted by the model
 	}
 	var lens []string
@@ -1169,6 +1190,10 @@ func (x *Exec) recvBlock(dir, r int, b *pendingBlockRx, fail func(string, string
 		if x.hazard[dir] {
 			sig = "c08:hpack-block-out-of-encode-order"
 			why = " (a block HPACK-encoded earlier was still queued on another stream when a later one was encoded)"
+		}
+		if x.stale[dir] && derr != nil && strings.Contains(derr.Error(), "dynamic table size update too large") {
+			sig = "c08:hpack-size-update-stale"
+			why = " (the relay wrote this size update when it encoded the block; the block then waited in an output queue while the receiver lowered its table size)"
 		}
 		if derr != nil {
 			fail(sig, "direction %d stream %d: the receiver cannot decode the header block: %v%s", dir, b.sid, derr, why)
